@@ -37,6 +37,11 @@ func ssaEvalDepth(f *ssa.Function, bind func(v ssa.Value) (constant.Value, bool)
 		if c, ok := bind(v); ok {
 			return c, true
 		}
+		if ssaEvalHook != nil {
+			if c, ok := ssaEvalHook(v, eval); ok {
+				return c, true
+			}
+		}
 		if c, ok := memo[v]; ok {
 			return c, true
 		}
@@ -348,3 +353,8 @@ func zeroConst(t types.Type) constant.Value {
 	}
 	return nil
 }
+
+// ssaEvalHook, when set, lets a rule give meaning to memory reads during an
+// evaluation (a small concrete model of the data the function reads): it
+// sees every value before the built-in cases and may use eval on operands.
+var ssaEvalHook func(v ssa.Value, eval func(ssa.Value) (constant.Value, bool)) (constant.Value, bool)
